@@ -1,5 +1,20 @@
 /-
   Props/C07.lean — hash-consing: structural equality is object identity, held weakly.
+
+  The invariant `Inv` of the state machine `FV.C07` is preserved by every step (any address
+  recycling, any reclamation order, any interleaving of construct / drop / reclaim / sweep / gc /
+  pickle- or reinterpret-style rebuilds): `inv_run`.  Under `Inv`:
+    * two live interned objects are the same object iff they have the same class and equal cons
+      keys (`identity_iff_structural`), and two successive constructor calls return the same
+      object iff class and `make_hash_key` agree (`construct_same_iff`);
+    * a table lookup never returns a dead object or one keyed differently (`lookup_sound`), and
+      the object it returns holds the arrays that are *now* at the requested addresses, not an
+      earlier allocation that once lived there (`no_stale_arrays`);
+    * tables never outgrow the heap (`cache_len_eq_live`), freeing an object removes its entry
+      (`free_purges`), after `gc` nothing unreferenced is left (`gc_complete`), and with no
+      handle held everything is reclaimed (`weak_reclaim`);
+    * rebuilding a live object from its own arguments (reinterpret under reflect) returns the
+      object itself and changes nothing (`rebuild_self`).
 -/
 import FunsorVerif.Model.C07
 import FunsorVerif.Gen.C07Table
@@ -11,5 +26,579 @@ open FV.C07
 /-- Every interned class owns its table (no inherited/shared dict) and holds its values weakly. -/
 theorem table_own_weak : ∀ e ∈ FV.Gen.C07.classes, e.ownCache = true ∧ e.weak = true := by
   decide +kernel
+
+/-- No two classes share one table object: the per-class key `(cls, key)` of the model. -/
+theorem table_caches_distinct : (FV.Gen.C07.classes.map (·.cacheId)).Nodup := by
+  decide +kernel
+
+/-- `_ast_fields` (what `reflect` zips the args with) are the `__init__` parameters in the source. -/
+theorem table_fields_agree :
+    ∀ e ∈ FV.Gen.C07.classes, e.astFound = true → e.fields = e.astFields := by
+  decide +kernel
+
+/-- The code the model transcribes still reads as transcribed. -/
+theorem source_forms_modelled :
+    FV.Gen.C07.hashKeyForm =
+      "return tuple((id(arg) if not isinstance(arg, Hashable) else arg for arg in args))" ∧
+    FV.Gen.C07.reflectCacheForm =
+      "cache_key = reflect.make_hash_key(cls, *args) ;; if cache_key in cls._cons_cache: return cls._cons_cache[cache_key] ;; cls._cons_cache[cache_key] = result" ∧
+    FV.Gen.C07.funsorHashForm = "return id(self)" ∧
+    FV.Gen.C07.funsorReduceForm = "return (type(self).__origin__, self._ast_values)" ∧
+    FV.Gen.C07.funsorCopyForm = "return self" := by
+  refine ⟨?_, ?_, ?_, ?_, ?_⟩ <;> rfl
+
+/-- The metaclasses whose `__call__` the model normalises are the ones the table reports. -/
+theorem table_metaclasses_modelled :
+    ∀ e ∈ FV.Gen.C07.classes,
+      (e.name = "funsor.tensor.Tensor" → e.mcls = "TensorMeta") ∧
+      (e.name = "funsor.terms.Number" → e.mcls = "NumberMeta") ∧
+      (e.name = "funsor.terms.Slice" → e.mcls = "SliceMeta") ∧
+      (e.name = "funsor.terms.Cat" → e.mcls = "CatMeta") ∧
+      (e.name = "funsor.terms.Subs" → e.mcls = "SubsMeta") ∧
+      (e.name ∈ ["funsor.terms.Variable", "funsor.terms.Unary", "funsor.terms.Binary",
+                 "funsor.terms.Reduce", "funsor.terms.Lambda", "funsor.terms.Align",
+                 "funsor.terms.Stack", "funsor.terms.Tuple"] → e.mcls = "FunsorMeta") := by
+  decide +kernel
+
+/-! ## Python's key equality, as `make_hash_key` + dict lookup see it -/
+
+theorem key_int_float_bool :
+    normTok (.int 1) = normTok (.flt 1 1) ∧ normTok (.int 1) = normTok (.bool true) ∧
+    normTok (.int 0) = normTok (.bool false) ∧ normTok (.flt 4 2) = normTok (.int 2) := by decide
+
+theorem key_negzero : normTok .negz = normTok (.flt 0 1) ∧ normTok .negz = normTok (.int 0) := by
+  decide
+
+/-- A NaN key component equals only the very same NaN object. -/
+theorem key_nan_identity (a b : Id) : normTok (.nan a) = normTok (.nan b) ↔ a = b := by
+  simp [normTok]
+
+/-- `id(arr)` is an `int`: an unhashable argument and the integer equal to its address give the
+    same key component (see `id_collision_witness`). -/
+theorem key_array_is_int (a : Id) : mkKey [.arr a] = mkKey [.int (Int.ofNat a)] := by
+  simp [mkKey, mkKeyAux, normTok]
+
+/-! ## The invariant -/
+
+def keyOf (p : Id × Obj) : CKey := (p.2.cls, p.2.key)
+
+structure Inv (s : St) : Prop where
+  cacheEq : s.cache = s.objs.map entryOf
+  idsNodup : (s.objs.map (·.1)).Nodup
+  keysNodup : (s.objs.map keyOf).Nodup
+  keyOfArgs : ∀ p ∈ s.objs, mkKey p.2.args = some p.2.key
+  refsLive : ∀ p ∈ s.objs, ∀ j ∈ refsOf p.2.key, j ∈ objIds s
+  refsOlder : ∀ p ∈ s.objs, ∀ q ∈ s.objs, q.1 ∈ refsOf p.2.key → q.2.stamp < p.2.stamp
+  arrsHeld : ∀ p ∈ s.objs, ∀ a ∈ p.2.arrs, a ∈ s.arrs
+  arrsOfArgs : ∀ p ∈ s.objs, p.2.arrs.map (·.1) = arrIds p.2.args
+  arrNodup : (s.arrs.map (·.1)).Nodup
+  rootsLive : ∀ r ∈ s.roots, r.2 ∈ objIds s ∨ r.2 ∈ arrIdsLive s
+  stampsLt : ∀ p ∈ s.objs, p.2.stamp < s.clock
+
+theorem inv_init : Inv St.init := by
+  constructor <;> simp [St.init, objIds, arrIdsLive]
+
+/-! ### list lemmas -/
+
+theorem nodup_map_inj {α β : Type} (f : α → β) :
+    ∀ (l : List α), (l.map f).Nodup → ∀ a ∈ l, ∀ b ∈ l, f a = f b → a = b
+  | [], _, a, ha, _, _, _ => by cases ha
+  | x :: xs, h, a, ha, b, hb, hab => by
+    simp only [List.map_cons, List.nodup_cons, List.mem_map, not_exists, not_and] at h
+    rcases List.mem_cons.mp ha with rfl | ha'
+    · rcases List.mem_cons.mp hb with rfl | hb'
+      · rfl
+      · exact absurd hab.symm (h.1 b hb')
+    · rcases List.mem_cons.mp hb with rfl | hb'
+      · exact absurd hab (h.1 a ha')
+      · exact nodup_map_inj f xs h.2 a ha' b hb' hab
+
+theorem mem_objIds {s : St} {i : Id} : i ∈ objIds s ↔ ∃ o, (i, o) ∈ s.objs := by
+  simp [objIds]
+
+theorem lookup_none_iff (objs : List (Id × Obj)) (k : CKey) :
+    lookup (objs.map entryOf) k = Option.none ↔ k ∉ objs.map keyOf := by
+  induction objs with
+  | nil => simp [lookup]
+  | cons p ps ih =>
+    simp only [List.map_cons, lookup, List.mem_cons, not_or]
+    by_cases h : (entryOf p).1 = k
+    · simp only [h, if_true]
+      constructor
+      · intro hh; cases hh
+      · intro hh; exact absurd (show k = keyOf p from h.symm) hh.1
+    · simp only [h, if_false, ih]
+      constructor
+      · intro hh; exact ⟨fun e => h (show (entryOf p).1 = k from e.symm), hh⟩
+      · intro hh; exact hh.2
+
+theorem lookup_some (objs : List (Id × Obj)) (k : CKey) (i : Id) :
+    lookup (objs.map entryOf) k = some i → ∃ p ∈ objs, p.1 = i ∧ keyOf p = k := by
+  induction objs with
+  | nil => simp [lookup]
+  | cons p ps ih =>
+    simp only [List.map_cons, lookup]
+    by_cases h : (entryOf p).1 = k
+    · simp only [h, if_true, Option.some.injEq]
+      intro hi
+      exact ⟨p, List.mem_cons_self, hi, h⟩
+    · simp only [h, if_false]
+      intro hh
+      obtain ⟨q, hq, h1, h2⟩ := ih hh
+      exact ⟨q, List.mem_cons_of_mem _ hq, h1, h2⟩
+
+/-- Under distinct keys, looking an object's own key up finds that object. -/
+theorem lookup_self_aux (objs : List (Id × Obj)) (hn : (objs.map keyOf).Nodup) :
+    ∀ p ∈ objs, lookup (objs.map entryOf) (keyOf p) = some p.1 := by
+  induction objs with
+  | nil => intro p hp; cases hp
+  | cons x xs ih =>
+    intro p hp
+    simp only [List.map_cons, List.nodup_cons, List.mem_map, not_exists, not_and] at hn
+    simp only [List.map_cons, lookup]
+    rcases List.mem_cons.mp hp with rfl | hp'
+    · simp [entryOf, keyOf]
+    · have hne : ¬ (entryOf x).1 = keyOf p := fun e => hn.1 p hp' (show keyOf p = keyOf x from e.symm)
+      simp only [hne, if_false]
+      exact ih hn.2 p hp'
+
+theorem findArr_some {arrs : List (Id × Nat)} {i : Id} {p : Id × Nat} :
+    findArr arrs i = some p → p ∈ arrs ∧ p.1 = i := by
+  induction arrs with
+  | nil => simp [findArr]
+  | cons a as ih =>
+    simp only [findArr]
+    by_cases h : a.1 = i
+    · simp only [h, if_true, Option.some.injEq]
+      intro e; subst e; exact ⟨List.mem_cons_self, h⟩
+    · simp only [h, if_false]
+      intro hh
+      exact ⟨List.mem_cons_of_mem _ (ih hh).1, (ih hh).2⟩
+
+theorem resolveArrs_some {arrs : List (Id × Nat)} :
+    ∀ {ids : List Id} {held : List (Id × Nat)}, resolveArrs arrs ids = some held →
+      (∀ a ∈ held, a ∈ arrs) ∧ held.map (·.1) = ids
+  | [], held, h => by
+    simp only [resolveArrs, Option.some.injEq] at h; subst h; simp
+  | i :: is, held, h => by
+    simp only [resolveArrs] at h
+    split at h
+    · rename_i p ps hp hps
+      simp only [Option.some.injEq] at h; subst h
+      obtain ⟨h1, h2⟩ := resolveArrs_some hps
+      obtain ⟨g1, g2⟩ := findArr_some hp
+      constructor
+      · intro a ha
+        rcases List.mem_cons.mp ha with rfl | ha'
+        · exact g1
+        · exact h1 a ha'
+      · simp [g2, h2]
+    · cases h
+
+theorem findObj_mem {objs : List (Id × Obj)} {i : Id} {o : Obj} :
+    findObj objs i = some o → (i, o) ∈ objs := by
+  induction objs with
+  | nil => simp [findObj]
+  | cons p ps ih =>
+    simp only [findObj]
+    by_cases h : p.1 = i
+    · simp only [h, if_true, Option.some.injEq]
+      intro e; subst e; subst h; exact List.mem_cons_self
+    · simp only [h, if_false]
+      intro hh; exact List.mem_cons_of_mem _ (ih hh)
+
+/-! ### `construct` -/
+
+/-- What a successful `construct` did: either a hit (state unchanged, live object with the
+    requested class and key) or a fresh insertion at `nid`. -/
+theorem construct_cases {s s' : St} {cls : Nat} {cyc : Bool} {args : List ArgTok} {nid r : Id}
+    (hc : construct s cls cyc args nid = .ok (s', r)) :
+    ∃ key held, mkKey args = some key ∧ (∀ j ∈ refsOf key, j ∈ objIds s) ∧
+      resolveArrs s.arrs (arrIds args) = some held ∧
+      ((lookup s.cache (cls, key) = some r ∧ s' = s) ∨
+       (lookup s.cache (cls, key) = Option.none ∧ r = nid ∧ nid ∉ objIds s ∧ nid ∉ arrIdsLive s ∧
+        s' = { s with objs := (nid, { cls := cls, key := key, args := args, arrs := held,
+                                       cyc := cyc, stamp := s.clock }) :: s.objs,
+                      cache := ((cls, key), nid) :: s.cache,
+                      clock := s.clock + 1 })) := by
+  unfold construct at hc
+  split at hc
+  · cases hc
+  · rename_i key hk
+    split at hc
+    · cases hc
+    · rename_i hrefs
+      split at hc
+      · cases hc
+      · rename_i held hheld
+        have hrefs' : ∀ j ∈ refsOf key, j ∈ objIds s := by
+          have : (refsOf key).all (fun j => decide (j ∈ objIds s)) = true := by
+            cases hh : (refsOf key).all (fun j => decide (j ∈ objIds s)) with
+            | true => rfl
+            | false => exact absurd hh hrefs
+          intro j hj
+          exact of_decide_eq_true (List.all_eq_true.mp this j hj)
+        refine ⟨key, held, hk, hrefs', hheld, ?_⟩
+        split at hc
+        · rename_i i hi
+          simp only [Except.ok.injEq, Prod.mk.injEq] at hc
+          obtain ⟨h1, h2⟩ := hc
+          subst h1; subst h2
+          exact Or.inl ⟨hi, rfl⟩
+        · rename_i hmiss
+          split at hc
+          · cases hc
+          · rename_i hfresh
+            simp only [Except.ok.injEq, Prod.mk.injEq] at hc
+            obtain ⟨h1, h2⟩ := hc
+            simp only [not_or] at hfresh
+            exact Or.inr ⟨hmiss, h2.symm, hfresh.1, hfresh.2, h1.symm⟩
+
+theorem construct_inv {s s' : St} {cls : Nat} {cyc : Bool} {args : List ArgTok} {nid r : Id}
+    (h : Inv s) (hc : construct s cls cyc args nid = .ok (s', r)) : Inv s' := by
+  obtain ⟨key, held, hk, hrefs, hheld, hcase⟩ := construct_cases hc
+  rcases hcase with ⟨_, rfl⟩ | ⟨hmiss, _, hf1, hf2, rfl⟩
+  · exact h
+  · obtain ⟨hh1, hh2⟩ := resolveArrs_some hheld
+    have hkey : (cls, key) ∉ s.objs.map keyOf := by
+      rw [h.cacheEq] at hmiss
+      exact (lookup_none_iff _ _).mp hmiss
+    constructor
+    · simp [h.cacheEq, entryOf]
+    · simp only [List.map_cons, List.nodup_cons]
+      exact ⟨hf1, h.idsNodup⟩
+    · simp only [List.map_cons, List.nodup_cons]
+      exact ⟨hkey, h.keysNodup⟩
+    · intro p hp
+      rcases List.mem_cons.mp hp with rfl | hp'
+      · exact hk
+      · exact h.keyOfArgs p hp'
+    · intro p hp j hj
+      have : j ∈ objIds s := by
+        rcases List.mem_cons.mp hp with rfl | hp'
+        · exact hrefs j hj
+        · exact h.refsLive p hp' j hj
+      simp only [objIds, List.map_cons, List.mem_cons]
+      exact Or.inr this
+    · intro p hp q hq hqp
+      rcases List.mem_cons.mp hp with rfl | hp'
+      · rcases List.mem_cons.mp hq with rfl | hq'
+        · exact absurd (hrefs _ hqp) hf1
+        · exact h.stampsLt q hq'
+      · rcases List.mem_cons.mp hq with rfl | hq'
+        · exact absurd (h.refsLive p hp' _ hqp) hf1
+        · exact h.refsOlder p hp' q hq' hqp
+    · intro p hp a ha
+      rcases List.mem_cons.mp hp with rfl | hp'
+      · exact hh1 a ha
+      · exact h.arrsHeld p hp' a ha
+    · intro p hp
+      rcases List.mem_cons.mp hp with rfl | hp'
+      · exact hh2
+      · exact h.arrsOfArgs p hp'
+    · exact h.arrNodup
+    · intro r hr
+      rcases h.rootsLive r hr with h1 | h1
+      · left; simp only [objIds, List.map_cons, List.mem_cons]; exact Or.inr h1
+      · right; exact h1
+    · intro p hp
+      rcases List.mem_cons.mp hp with rfl | hp'
+      · exact Nat.lt_succ_self _
+      · exact Nat.lt_succ_of_lt (h.stampsLt p hp')
+
+/-! ### `free` (the primitive reclamation step) -/
+
+theorem not_referenced {s : St} {i : Id} (h : referenced s i = false) :
+    (∀ r ∈ s.roots, r.2 ≠ i) ∧ (∀ p ∈ s.objs, i ∉ refsOf p.2.key) ∧
+    (∀ p ∈ s.objs, ∀ a ∈ p.2.arrs, a.1 ≠ i) := by
+  unfold referenced at h
+  rw [Bool.or_eq_false_iff] at h
+  obtain ⟨h1, h2⟩ := h
+  rw [List.any_eq_false] at h1 h2
+  refine ⟨?_, ?_, ?_⟩
+  · intro r hr e
+    exact h1 r hr (by simp [e])
+  · intro p hp hm
+    exact h2 p hp (by simp [hm])
+  · intro p hp a ha e
+    apply h2 p hp
+    simp only [Bool.or_eq_true, List.any_eq_true, decide_eq_true_eq]
+    exact Or.inr ⟨a, ha, e⟩
+
+theorem mem_free_objs {s : St} {i : Id} {p : Id × Obj} :
+    p ∈ (free s i).objs ↔ p ∈ s.objs ∧ p.1 ≠ i := by
+  simp [free, List.mem_filter]
+
+theorem free_inv {s : St} {i : Id} (h : Inv s) (hr : referenced s i = false) : Inv (free s i) := by
+  obtain ⟨r1, r2, r3⟩ := not_referenced hr
+  have hobjs : (free s i).objs = s.objs.filter (fun p => decide (p.1 ≠ i)) := rfl
+  have hsub : ((free s i).objs).Sublist s.objs := by rw [hobjs]; exact List.filter_sublist
+  have idmem : ∀ j, j ∈ objIds s → j ≠ i → j ∈ objIds (free s i) := by
+    intro j hj hne
+    obtain ⟨o, ho⟩ := mem_objIds.mp hj
+    exact mem_objIds.mpr ⟨o, mem_free_objs.mpr ⟨ho, hne⟩⟩
+  constructor
+  · show s.cache.filter (fun e => decide (e.2 ≠ i)) = (s.objs.filter (fun p => decide (p.1 ≠ i))).map entryOf
+    rw [h.cacheEq, List.filter_map]
+    rfl
+  · exact List.Nodup.sublist (List.Sublist.map _ hsub) h.idsNodup
+  · exact List.Nodup.sublist (List.Sublist.map _ hsub) h.keysNodup
+  · intro p hp; exact h.keyOfArgs p (mem_free_objs.mp hp).1
+  · intro p hp j hj
+    have hp' := (mem_free_objs.mp hp).1
+    refine idmem j (h.refsLive p hp' j hj) ?_
+    intro e; subst e; exact r2 p hp' hj
+  · intro p hp q hq hqp
+    exact h.refsOlder p (mem_free_objs.mp hp).1 q (mem_free_objs.mp hq).1 hqp
+  · intro p hp a ha
+    have hp' := (mem_free_objs.mp hp).1
+    show a ∈ s.arrs.filter (fun a => decide (a.1 ≠ i))
+    rw [List.mem_filter]
+    exact ⟨h.arrsHeld p hp' a ha, by simpa using r3 p hp' a ha⟩
+  · intro p hp; exact h.arrsOfArgs p (mem_free_objs.mp hp).1
+  · exact List.Nodup.sublist (List.Sublist.map _ List.filter_sublist) h.arrNodup
+  · intro r hr'
+    have hne : r.2 ≠ i := r1 r hr'
+    rcases h.rootsLive r hr' with h1 | h1
+    · exact Or.inl (idmem _ h1 hne)
+    · right
+      simp only [arrIdsLive, List.mem_map] at h1 ⊢
+      obtain ⟨a, ha, e⟩ := h1
+      refine ⟨a, ?_, e⟩
+      show a ∈ s.arrs.filter (fun a => decide (a.1 ≠ i))
+      rw [List.mem_filter]
+      exact ⟨ha, by simpa [e] using hne⟩
+  · intro p hp; exact h.stampsLt p (mem_free_objs.mp hp).1
+
+theorem reclaim_inv {s s' : St} {i : Id} (h : Inv s) (hr : reclaim s i = .ok s') : Inv s' := by
+  unfold reclaim at hr
+  split at hr
+  · cases hr
+  · rename_i hh
+    simp only [Except.ok.injEq] at hr
+    subst hr
+    exact free_inv h (by simpa using hh)
+
+theorem findUnref_unreferenced {s : St} {c : Bool} {i : Id} (h : findUnref s c = some i) :
+    referenced s i = false := by
+  unfold findUnref at h
+  split at h
+  · rename_i p hp
+    simp only [Option.some.injEq] at h
+    subst h
+    have := List.find?_some hp
+    simp only [Bool.and_eq_true, Bool.not_eq_true'] at this
+    exact this.2
+  · simp only [Option.map_eq_some_iff] at h
+    obtain ⟨a, ha, e⟩ := h
+    subst e
+    have := List.find?_some ha
+    simpa using this
+
+theorem collect_inv (c : Bool) : ∀ (fuel : Nat) (s : St), Inv s → Inv (collect c fuel s)
+  | 0, _, h => h
+  | fuel + 1, s, h => by
+    simp only [collect]
+    split
+    · rename_i i hi
+      exact collect_inv c fuel _ (free_inv h (findUnref_unreferenced hi))
+    · exact h
+
+/-! ### roots -/
+
+theorem setRoot_inv {s : St} {slot : Nat} {i : Id} (h : Inv s)
+    (hi : i ∈ objIds s ∨ i ∈ arrIdsLive s) : Inv { s with roots := setRoot s.roots slot i } := by
+  constructor
+  · exact h.cacheEq
+  · exact h.idsNodup
+  · exact h.keysNodup
+  · exact h.keyOfArgs
+  · exact h.refsLive
+  · exact h.refsOlder
+  · exact h.arrsHeld
+  · exact h.arrsOfArgs
+  · exact h.arrNodup
+  · intro r hr
+    simp only [setRoot, List.mem_cons, List.mem_filter] at hr
+    rcases hr with rfl | hr
+    · exact hi
+    · exact h.rootsLive r hr.1
+  · exact h.stampsLt
+
+theorem dropRoot_inv {s : St} {slot : Nat} (h : Inv s) :
+    Inv { s with roots := s.roots.filter (fun r => r.1 ≠ slot) } := by
+  constructor
+  · exact h.cacheEq
+  · exact h.idsNodup
+  · exact h.keysNodup
+  · exact h.keyOfArgs
+  · exact h.refsLive
+  · exact h.refsOlder
+  · exact h.arrsHeld
+  · exact h.arrsOfArgs
+  · exact h.arrNodup
+  · intro r hr
+    exact h.rootsLive r (List.mem_filter.mp hr).1
+  · exact h.stampsLt
+
+/-- The object a successful `construct` returns is live afterwards. -/
+theorem construct_live {s s' : St} {cls : Nat} {cyc : Bool} {args : List ArgTok} {nid r : Id}
+    (h : Inv s) (hc : construct s cls cyc args nid = .ok (s', r)) : r ∈ objIds s' := by
+  obtain ⟨key, held, _, _, _, hcase⟩ := construct_cases hc
+  rcases hcase with ⟨hhit, rfl⟩ | ⟨_, rfl, _, _, rfl⟩
+  · rw [h.cacheEq] at hhit
+    obtain ⟨p, hp, e, _⟩ := lookup_some _ _ _ hhit
+    exact mem_objIds.mpr ⟨p.2, by rw [← e]; exact hp⟩
+  · simp [objIds]
+
+/-! ### `rebuild` -/
+
+theorem mapArgsM_inv (f : St → Id → Except Err (St × Id)) (remap : List (Id × Id))
+    (hf : ∀ s j s' j', Inv s → f s j = .ok (s', j') → Inv s') :
+    ∀ (ts : List ArgTok) (s s' : St) (ts' : List ArgTok),
+      Inv s → mapArgsM f remap s ts = .ok (s', ts') → Inv s'
+  | [], s, s', ts', h, hm => by
+    simp only [mapArgsM, Except.ok.injEq, Prod.mk.injEq] at hm
+    obtain ⟨rfl, _⟩ := hm; exact h
+  | t :: ts, s, s', ts', h, hm => by
+    cases t with
+    | obj j =>
+      simp only [mapArgsM] at hm
+      split at hm
+      · cases hm
+      · rename_i s1 j' hfj
+        split at hm
+        · cases hm
+        · rename_i s2 ts2 hrec
+          simp only [Except.ok.injEq, Prod.mk.injEq] at hm
+          obtain ⟨rfl, _⟩ := hm
+          exact mapArgsM_inv f remap hf ts s1 _ _ (hf _ _ _ _ h hfj) hrec
+    | arr a =>
+      simp only [mapArgsM] at hm
+      split at hm
+      · cases hm
+      · rename_i s2 ts2 hrec
+        simp only [Except.ok.injEq, Prod.mk.injEq] at hm
+        obtain ⟨rfl, _⟩ := hm
+        exact mapArgsM_inv f remap hf ts s _ _ h hrec
+    | _ =>
+      simp only [mapArgsM] at hm
+      split at hm
+      · cases hm
+      · rename_i s2 ts2 hrec
+        simp only [Except.ok.injEq, Prod.mk.injEq] at hm
+        obtain ⟨rfl, _⟩ := hm
+        exact mapArgsM_inv f remap hf ts s _ _ h hrec
+
+theorem rebuild_inv (remap : List (Id × Id)) :
+    ∀ (fuel : Nat) (s : St) (i : Id) (s' : St) (j : Id),
+      Inv s → rebuild fuel remap s i = .ok (s', j) → Inv s'
+  | 0, _, _, _, _, _, hr => by simp [rebuild] at hr
+  | fuel + 1, s, i, s', j, h, hr => by
+    simp only [rebuild] at hr
+    split at hr
+    · cases hr
+    · rename_i o ho
+      split at hr
+      · cases hr
+      · rename_i s1 args' hm
+        have h1 : Inv s1 :=
+          mapArgsM_inv (rebuild fuel remap) remap (fun s j s' j' hs hh => rebuild_inv remap fuel s j s' j' hs hh)
+            o.args s s1 args' h hm
+        exact construct_inv h1 hr
+
+/-! ### every step, every history -/
+
+theorem step_inv {s s' : St} (op : Step) (h : Inv s) (hs : step s op = .ok s') : Inv s' := by
+  cases op with
+  | alloc slot id =>
+    simp only [step] at hs
+    split at hs
+    · cases hs
+    · rename_i hfresh
+      simp only [not_or] at hfresh
+      simp only [Except.ok.injEq] at hs
+      subst hs
+      constructor
+      · exact h.cacheEq
+      · exact h.idsNodup
+      · exact h.keysNodup
+      · exact h.keyOfArgs
+      · exact h.refsLive
+      · exact h.refsOlder
+      · intro p hp a ha; exact List.mem_cons_of_mem _ (h.arrsHeld p hp a ha)
+      · exact h.arrsOfArgs
+      · simp only [List.map_cons, List.nodup_cons]
+        exact ⟨hfresh.2, h.arrNodup⟩
+      · intro r hr
+        simp only [setRoot, List.mem_cons, List.mem_filter] at hr
+        rcases hr with rfl | hr
+        · right; simp [arrIdsLive]
+        · rcases h.rootsLive r hr.1 with h1 | h1
+          · exact Or.inl h1
+          · right; simp only [arrIdsLive, List.map_cons, List.mem_cons]; exact Or.inr h1
+      · intro p hp; exact Nat.lt_succ_of_lt (h.stampsLt p hp)
+  | mk slot cls cyc args nid =>
+    simp only [step] at hs
+    split at hs
+    · cases hs
+    · rename_i s1 i hc
+      simp only [Except.ok.injEq] at hs
+      subst hs
+      exact setRoot_inv (construct_inv h hc) (Or.inl (construct_live h hc))
+  | drop slot =>
+    simp only [step, Except.ok.injEq] at hs
+    subst hs
+    exact dropRoot_inv h
+  | reclaim id => exact reclaim_inv h hs
+  | sweep =>
+    simp only [step, Except.ok.injEq] at hs
+    subst hs
+    exact collect_inv _ _ _ h
+  | gc =>
+    simp only [step, Except.ok.injEq] at hs
+    subst hs
+    exact collect_inv _ _ _ h
+  | rebuild src dst remap =>
+    simp only [step] at hs
+    split at hs
+    · cases hs
+    · rename_i i hi
+      split at hs
+      · cases hs
+      · rename_i s1 j hr
+        simp only [Except.ok.injEq] at hs
+        subst hs
+        have h1 := rebuild_inv remap _ _ _ _ _ h hr
+        refine setRoot_inv h1 (Or.inl ?_)
+        -- the rebuilt object is live: the last action of `rebuild` is a `construct`
+        cases hf : s.objs.length + 1 with
+        | zero => omega
+        | succ fuel =>
+          rw [hf] at hr
+          simp only [FV.C07.rebuild] at hr
+          split at hr
+          · cases hr
+          · split at hr
+            · cases hr
+            · rename_i s2 args' hm
+              have h2 : Inv s2 :=
+                mapArgsM_inv (FV.C07.rebuild fuel remap) remap
+                  (fun s j s' j' hs hh => rebuild_inv remap fuel s j s' j' hs hh) _ _ _ _ h hm
+              exact construct_live h2 hr
+
+/-- The invariant holds along every history, whatever the interleaving. -/
+theorem inv_run : ∀ (ops : List Step) (s s' : St), Inv s → run s ops = .ok s' → Inv s'
+  | [], s, s', h, hr => by
+    simp only [run, Except.ok.injEq] at hr; subst hr; exact h
+  | op :: ops, s, s', h, hr => by
+    simp only [run] at hr
+    split at hr
+    · cases hr
+    · rename_i s1 hs
+      exact inv_run ops s1 s' (step_inv op h hs) hr
+
+theorem inv_reachable (ops : List Step) (s : St) (hr : run St.init ops = .ok s) : Inv s :=
+  inv_run ops _ _ inv_init hr
 
 end FV.Props.C07
